@@ -42,9 +42,11 @@ def parseCOp (toks : List String) : Option COp :=
 
 def cliStep (c : Sys) (toks : List String) : Sys × List String :=
   if toks == ["settle"] then
+    let unread := settleUnread { c with s := { c.s with obs := [] } }
     let (c', stuck) := settle { c with s := { c.s with obs := [] } }
     let lines := c'.s.obs.reverse.map showObs
-    let verdict := if stuck.isEmpty then "settled ok" else "settled stuck " ++ " ".intercalate (stuck.map fun k => s!"c{k}")
+    let items := (stuck.map fun k => s!"c{k}") ++ (if unread > 0 then [s!"inbound-unread={unread}"] else [])
+    let verdict := if items.isEmpty then "settled ok" else "settled stuck " ++ " ".intercalate items
     ({ c' with s := { c'.s with obs := [] } }, lines ++ [verdict])
   else
   match parseCOp toks with
